@@ -88,7 +88,10 @@ ASSUMPTIONS = [
     "frames that would contain NaN after pd.concat / pivot (unequal series lengths inside from_nested_to_multi_index, incomplete long tables) are outside the model (E:unmodelled, never generated)",
     "the name attribute of the Series in the cells is irrelevant to every converter (since 89ac2e4); the stream includes cells named by column, by instance and in permuted order, sent to the same model line as unnamed cells",
 ]
-RULE = ("exhaustive small scope: shapes (1..3)x(1..3)x(1..4) x name sets (default / str / str-unsorted / int) x start container (5 kinds; for nested / multi-index / long starts the instance "
+RULE = ("conversion after a selection: every converter and every path of length <= 2 on sub-panels OBTAINED from a bigger container by .loc list / boolean mask / .iloc / reversal "
+        "of the instances, a column subset, a time prefix (stale MultiIndex levels, non-default row labels, numpy views) and on Fortran / transposed-view / strided 3-D and 2-D arrays, "
+        "with the clause convert(select(P)) == select(convert(P)); "
+        "exhaustive small scope: shapes (1..3)x(1..3)x(1..4) x name sets (default / str / str-unsorted / int) x start container (5 kinds; for nested / multi-index / long starts the instance "
         "identifiers are default or, in 2/3 of the cases, shuffled / gapped / descending ints or strings that do not sort in row order) x every type-correct "
         "conversion path of length <= 3 with seeded options (quick: seed-rotated 1/6 slice; thorough: all, two draws of the options each); random larger panels (up to 8 x 13 x 12, paths <= 4); "
         "mixed primitive frames; malformed stream (2-D arrays, wrong / missing level names, wrong-length / duplicate / reserved names, shuffled / duplicated / "
@@ -370,7 +373,8 @@ def canon(x, kind, m=None, index=None):
         cols = list(x.columns)
         if len(cols) != 4 or cols[3] != "value":
             return "X:long-columns:" + ",".join(map(str, cols))
-        rows = [",".join([lab(a), str(int(b)), enc_name(c), show_rat(float(d))]) for a, b, c, d in x.values.tolist()]
+        rows = [",".join([lab(a), str(int(b)), enc_name(c), show_rat(float(d))])
+                for a, b, c, d in zip(x.iloc[:, 0].tolist(), x.iloc[:, 1].tolist(), x.iloc[:, 2].tolist(), x.iloc[:, 3].tolist())]
         flag = "" if _default_range(x.index, x.shape[0]) else "!idx"
         return "L:%s:%s:%s:%s%s" % (cols[0], cols[1], cols[2], enc_list(";", rows), flag)
     raise ValueError(kind)
@@ -405,14 +409,146 @@ def apply_hop(h, x):
     raise ValueError(op)
 
 
+def _strip_tok(tok):
+    """token without flags and without the row labels of a nested frame (for the harness' own self-check)"""
+    tok = tok.replace("!idx", "").replace("!tidx", "")
+    p = tok.split(":")
+    if p[0] == "N" and len(p) == 4:
+        tok = ":".join(p[:3])
+    if p[0] == "L":
+        rows = [] if p[4] == "-" else sorted(p[4].split(";"))
+        tok = ":".join(p[:4] + [enc_list(";", rows)])
+    return tok
+
+
+def realize(c):
+    """the real start container.  Without `via` it is built directly; with `via` it is OBTAINED from a bigger container by the
+    pandas / numpy selections users apply (rows by .loc list / boolean mask / .iloc / reversed, a prefix of the time points, a
+    subset of the columns) and / or given another memory layout.  pandas keeps unused MultiIndex levels after a selection and
+    numpy returns non-contiguous views: the converters must not care.  The result is checked against the case's own start
+    description (a mismatch is a harness error, reported as X:select-mismatch)."""
+    r = c["start"]
+    via = c.get("via")
+    if not via:
+        return build(r)
+    big = via["big"]
+    x = build(big)
+    k = big["k"]
+    inst, how, tpre, cols, layout = via.get("inst"), via.get("how"), via.get("tpre"), via.get("cols"), via.get("layout")
+    if k in ("A", "T") and not isinstance(x, pd.DataFrame):
+        if inst is not None:
+            if how == "rev":
+                x = x[::-1]
+            elif how == "mask":
+                x = x[np.isin(np.arange(x.shape[0]), inst)]
+            elif how == "slice":
+                x = x[inst[0]:inst[-1] + 1]
+            else:
+                x = x[list(inst)]
+        if k == "A":
+            if cols is not None:
+                x = x[:, list(cols), :] if how != "slice" else x[:, cols[0]:cols[-1] + 1, :]
+            if tpre is not None:
+                x = x[:, :, :tpre]
+            if layout == "F":
+                x = np.asfortranarray(x)
+            elif layout == "T":
+                x = np.ascontiguousarray(x.transpose(2, 0, 1)).transpose(1, 2, 0)
+            elif layout == "strided":
+                buf = np.full((x.shape[0], x.shape[1], 2 * x.shape[2] + 1), -99.0)
+                buf[:, :, 1::2] = x
+                x = buf[:, :, 1::2]
+        else:
+            if layout == "F":
+                x = np.asfortranarray(x)
+            elif layout == "strided":
+                buf = np.full((x.shape[0], 2 * x.shape[1] + 1), -99.0)
+                buf[:, 1::2] = x
+                x = buf[:, 1::2]
+    elif k == "T":
+        if inst is not None:
+            x = x.iloc[list(inst)] if how != "mask" else x[np.isin(np.arange(x.shape[0]), inst)]
+    elif k == "N":
+        n = x.shape[0]
+        labels = list(big.get("index") or range(n))
+        if inst is not None:
+            if how == "loc":
+                x = x.loc[[labels[p] for p in inst]]
+            elif how == "mask":
+                x = x[np.isin(np.arange(n), inst)]
+            elif how == "rev":
+                x = x.iloc[::-1]
+            else:
+                x = x.iloc[list(inst)]
+        if cols is not None:
+            x = x[[big["names"][j] for j in cols]]
+        if tpre is not None:
+            y = pd.DataFrame(index=x.index)
+            for j, name in enumerate(list(x.columns)):
+                a = np.empty(x.shape[0], dtype=object)
+                for i in range(x.shape[0]):
+                    cell = x.iloc[i, j]
+                    a[i] = cell.iloc[:tpre] if isinstance(cell, pd.Series) else cell[:tpre]
+                y[j] = pd.Series(a, index=x.index)
+            y.columns = list(x.columns)
+            x = y
+    elif k == "M":
+        n_rows = x.shape[0]
+        lv0 = x.index.get_level_values(0)
+        ids_big = list(pd.unique(lv0))
+        if inst is not None:
+            labels = [ids_big[p] for p in inst]
+            if how == "loc":
+                x = x.loc[labels]
+            elif how == "mask":
+                x = x[lv0.isin(labels)]
+            else:
+                t = n_rows // len(ids_big)
+                x = x.iloc[[p * t + q for p in inst for q in range(t)]]
+        if cols is not None:
+            x = x[[big["names"][j] for j in cols]]
+        if tpre is not None:
+            x = x[x.index.get_level_values(1) < tpre]
+    elif k == "L":
+        if inst is not None:
+            ids_big = list(pd.unique(x[big["inst"]]))
+            x = x[x[big["inst"]].isin([ids_big[p] for p in inst])]
+        if cols is not None:
+            nm_big = list(pd.unique(x[big["dim"]]))
+            x = x[x[big["dim"]].isin([nm_big[j] for j in cols])]
+        if tpre is not None:
+            x = x[x[big["time"]] < tpre]
+    # self-check of the harness: the selection is the container the case describes
+    m = lab_map(r)
+    kind = r["k"]
+    got = canon(x, kind, m, list(x.index) if isinstance(x, pd.DataFrame) else None)
+    if _strip_tok(got) != _strip_tok(enc_rep(r, m)):
+        raise AssertionError("select-mismatch: %s vs %s" % (got[:200], enc_rep(r, m)[:200]))
+    if kind == "N" and list(x.index) != list(r.get("index") or range(x.shape[0])):
+        raise AssertionError("select-mismatch: row labels %r" % (list(x.index),))
+    return x
+
+
+def select3(v, via):
+    """the selection applied to a panel given as values[i][j][t]"""
+    inst, tpre, cols = via.get("inst"), via.get("tpre"), via.get("cols")
+    if inst is not None:
+        v = [v[p] for p in inst]
+    if cols is not None:
+        v = [[row[j] for j in cols] for row in v]
+    if tpre is not None:
+        v = [[col[:tpre] for col in row] for row in v]
+    return v
+
+
 def run_real(c):
     import sktime.utils.data_processing as dp
     if c["op"] == "path":
         outs = []
         try:
-            x = build(c["start"])
+            x = realize(c)
         except Exception as e:          # harness cannot even build the container: visible, not silent
-            return "X:build:" + type(e).__name__
+            return "X:build:" + type(e).__name__ + ":" + str(e)[:120].replace(" ", "_")
         m = lab_map(c["start"])
         index = c["start"].get("index")
         for h in c["hops"]:
@@ -425,10 +561,19 @@ def run_real(c):
         s = enc_list(" > ", outs)
         if c.get("direct"):
             try:
-                d = canon(apply_hop(c["direct"], build(c["start"])), OUT[c["direct"][0]], m, index)
+                d = canon(apply_hop(c["direct"], realize(c)), OUT[c["direct"][0]], m, index)
             except Exception as e:
                 d = canon_err(e)
             s += " || " + d
+        via = c.get("via")
+        if via and c["hops"] and any(via.get(f) is not None for f in ("inst", "tpre", "cols")):
+            # the same first converter on the WHOLE container: convert(select(P)) must be select(convert(P))
+            h0 = c["hops"][0]
+            try:
+                b = canon(apply_hop(h0, build(via["big"])), OUT[h0[0]], lab_map(via["big"]), via["big"].get("index"))
+            except Exception as e:
+                b = canon_err(e)
+            s += " ## " + b
         return s
     if c["op"] == "pred":
         x = build(c["start"])
@@ -600,7 +745,8 @@ def _walk(c, toks, fails):
             if named:
                 fails.append((op + ":named-series-cells:rejected", "Series cells carrying a name (%s): %s raised %s" % (start["snames"], op, tok)))
             elif op == "nl" and tok == "E:value" and names is not None and any(x in ("index", "time_index", "value") for x in names):
-                fails.append(("nl:reserved-name-rejected", "nested frame with a column named %r cannot be converted to long: %s" % (names, tok)))
+                which = [x for x in ("index", "time_index", "value") if x in names][0]
+                fails.append(("nl:reserved-name-rejected:" + which, "nested frame with a column named %r cannot be converted to long: %s" % (names, tok)))
             elif op == "2n" and h[2] == "R" and tok == "E:type":
                 fails.append(("2n:array-cells-rejected", "from_2d_array_to_nested(cells_as_numpy=True) raised %s" % tok))
             else:
@@ -704,6 +850,84 @@ def _walk(c, toks, fails):
     return (kind, names, exp)
 
 
+def _commutes(c, out, bigtok):
+    """convert(select(P)) == select(convert(P)) for the first converter of the path"""
+    via = c["via"]
+    h0 = c["hops"][0]
+    op = h0[0]
+    subtok = out.split(" || ")[0].split(" > ")[0]
+    if bigtok.startswith("E:") or bigtok.startswith("X:"):
+        return []                                  # the whole container is rejected: judged by its own cases
+    big = via["big"]
+    mb = lab_map(big)
+    idsb = [lab_int(x, mb) for x in rep_labels_panel(big)] if big["k"] in ("N", "M", "L") else None
+    ids_carried = op in ("nm", "nl")
+    db = denote(bigtok, idsb if (ids_carried and idsb) else None)
+    if db is None:
+        return []
+    if subtok.startswith("E:") or subtok.startswith("X:"):
+        # arguments that fit the whole container fit the selection
+        pn = h0[1] if op in ("3n", "2n") else h0[3] if op == "3m" else h0[4] if op == "ln" else None
+        if pn is not None:
+            return []
+        return [(op + ":selection-commutes", "%r converts the whole container but raises %s on its selection %r" % (h0, subtok, {k: v for k, v in via.items() if k != "big"}))]
+    ms = lab_map(c["start"])
+    idss = [lab_int(x, ms) for x in rep_labels_panel(c["start"])] if c["start"]["k"] in ("N", "M", "L") else None
+    ds = denote(subtok, idss if (ids_carried and idss) else None)
+    if ds is None or "order" in ds[3] or "order" in db[3]:
+        return []                                  # reported by the walk
+    kb, _, vb, _ = db
+    ks, _, vs, _ = ds
+    if kb == "L":
+        # both long tables are read by identifier: position p of the selection is position inst[p] of the whole
+        inst = via.get("inst") if via.get("inst") is not None else list(range(db[3]["n"]))
+        keep = set(ds[1])
+        want = {}
+        for (i, q, nm), v in vb.items():
+            if i in inst and nm in keep and (via.get("tpre") is None or q < via["tpre"]):
+                want[(inst.index(i), q, nm)] = v
+        if want != vs:
+            return [(op + ":selection-commutes", "%r: the long table of the selection is not the selection of the long table (%r)" % (h0, {k: v for k, v in via.items() if k != "big"}))]
+        return []
+    if kb == "T":
+        inst = via.get("inst")
+        wantr = vb if inst is None else [vb[p] for p in inst]
+        if via.get("cols") is not None or via.get("tpre") is not None:
+            return []                              # a 2-D table has no variable / time structure to select from
+        if wantr != vs:
+            return [(op + ":selection-commutes", "%r: 2-D table of the selection %r differs from the selection of the 2-D table" % (h0, {k: v for k, v in via.items() if k != "big"}))]
+        return []
+    via2 = dict(via)
+    if op == "ln":
+        # the long table hands instances and variables back in identifier order: select in that order
+        ids_big = [lab_int(x, mb) for x in rep_labels_panel(big)]
+        if via.get("inst") is not None:
+            order_big = sorted(range(len(ids_big)), key=lambda i: ids_big[i])
+            sel = set(via["inst"])
+            via2["inst"] = [r for r, i in enumerate(order_big) if i in sel]
+        if via.get("cols") is not None:
+            return []
+    if op == "2n":
+        return []
+    want3 = select3(vb, via2)
+    if want3 != vs:
+        return [(op + ":selection-commutes", "%r: converting the selection %r gives %r, selecting from the converted whole gives %r" % (h0, {k: v for k, v in via.items() if k != "big"}, vs[:2], want3[:2]))]
+    return []
+
+
+def rep_labels_panel(r):
+    """instance identifiers of a start container in the panel's instance order"""
+    k = r["k"]
+    if k == "N":
+        n = len(r["cols"][0]) if r["cols"] else 0
+        return list(r.get("index") or range(n))
+    seen = []
+    for row in r["rows"]:
+        if row[0] not in seen:
+            seen.append(row[0])
+    return seen
+
+
 def oracle(c, out):
     fails = []
     if c["op"] == "pred":
@@ -739,6 +963,12 @@ def oracle(c, out):
             fails.append(("chk:names-not-preserved", "check_X%r returned names %r" % (f, d[1])))
         return fails
     # path
+    out, _, bigtok = out.partition(" ## ")
+    if out.startswith("X:build"):
+        fails.append(("harness:start-container", out))
+        return fails
+    if bigtok:
+        fails.extend(_commutes(c, out, bigtok))
     parts = out.split(" || ")
     toks = [] if parts[0] == "-" else parts[0].split(" > ")
     end = _walk(c, toks, fails)
@@ -767,9 +997,13 @@ def oracle(c, out):
     return fails
 
 
+def compare(real_out, model_out):
+    return real_out.split(" ## ")[0] == model_out
+
+
 def nontrivial(c, out):
     if c["op"] == "path":
-        first = out.split(" || ")[0].split(" > ")[0]
+        first = out.split(" ## ")[0].split(" || ")[0].split(" > ")[0]
         return c.get("panel") is not None and not first.startswith("E:") and not first.startswith("X:") and first != "-"
     return not out.startswith("E:")
 
@@ -788,7 +1022,13 @@ def features(c, out):
             f.append("shape=%s,%s,%s" % tuple(str(x) if x <= 4 else "5+" for x in (len(v), len(v[0]), len(v[0][0]))))
             nm = p.get("names")
             f.append("names=" + ("default" if nm is None or nm == default_names(len(nm)) else "int" if nm and isinstance(nm[0], int) else "str"))
-        for tok in out.replace(" || ", " > ").split(" > "):
+        if c.get("via"):
+            v = c["via"]
+            f.append("via=" + "+".join([x for x in (("inst-" + str(v.get("how"))) if v.get("inst") is not None else None,
+                                                     "cols" if v.get("cols") is not None else None,
+                                                     "time" if v.get("tpre") is not None else None,
+                                                     ("layout-" + v["layout"]) if v.get("layout") else None) if x]))
+        for tok in out.split(" ## ")[0].replace(" || ", " > ").split(" > "):
             if tok.startswith("E:") or tok.startswith("X:"):
                 f.append("err=" + tok)
     elif out.startswith("E:"):
@@ -1020,7 +1260,10 @@ def gen_random(tier, rng, cases):
         if ids is not None:
             panel["ids"] = ids
         cn = (lambda k, nk=nk: mk_names(rng, k, nk if nk != "default" else "str"))
-        cases.append(mk_path_case(rng, rep, panel, ops, c, cn))
+        case = mk_path_case(rng, rep, panel, ops, c, cn)
+        if sk == "A" and rng.random() < 0.5:
+            case["via"] = {"big": rep, "layout": rng.choice(["F", "T", "strided"])}
+        cases.append(case)
 
 
 def rand_frame(rng, n, c, t, pprim, ragged=False):
@@ -1164,6 +1407,86 @@ def gen_snames(tier, rng, cases):
         cases.append(mk_path_case(rng, rep, {"vals": vals, "names": names}, ops, c))
 
 
+def sel_case(rng, kind, big_panel, big_rep, via, ops, meta):
+    """case whose start container is a selection (and / or another memory layout) of `big_rep`"""
+    vals = select3(big_panel["vals"], via)
+    n, c = len(vals), len(vals[0])
+    names = big_panel["names"] if via.get("cols") is None else [big_panel["names"][j] for j in via["cols"]]
+    ids_big = big_panel.get("ids")
+    ids = None
+    if kind in ("N", "M", "L"):
+        base = ids_big if ids_big is not None else list(range(len(big_panel["vals"])))
+        ids = [base[p] for p in via["inst"]] if via.get("inst") is not None else (list(ids_big) if ids_big is not None else None)
+    rep = start_rep(rng, kind, vals, names if kind != "A" else None, cellkind=meta.get("cellkind", "S"), levels=meta.get("levels"),
+                    longcols=meta.get("longcols"), shuffle=False, pandas2d=meta.get("pandas2d", False), ids=ids)
+    if kind == "T" and meta.get("pandas2d"):
+        rep["labels"] = big_rep["labels"]
+    panel = {"vals": vals, "names": names}
+    if ids is not None:
+        panel["ids"] = ids
+    case = mk_path_case(rng, rep, panel, ops, c, None)
+    case["via"] = dict(via, big=big_rep)
+    return case
+
+
+def gen_select(tier, rng, cases):
+    """conversion after a selection: every converter is fed sub-panels obtained by row / column / time selections of a bigger
+    container (pandas keeps stale MultiIndex levels, numpy hands out views) and arrays in other memory layouts"""
+    shapes = [(4, 2, 6), (3, 2, 2), (4, 3, 3), (5, 1, 4), (2, 2, 3)]
+    reps = 1 if tier == "quick" else 4
+    for _ in range(reps):
+        for (n, c, t) in shapes:
+            for kind in "ANMLT":
+                vals = mk_vals(rng, n, c, t)
+                names = mk_names(rng, c, rng.choice(["str", "str-unsorted", "int", "default"])) or default_names(c)
+                ids = mk_ids(rng, n, rng.choice([None, None, "perm", "gap", "str"])) if kind in ("N", "M", "L") else None
+                meta = {"cellkind": rng.choice(["S", "R"]), "levels": rng.choice(LEVELS), "longcols": rng.choice(LONGCOLS),
+                        "pandas2d": kind == "T" and rng.random() < 0.5}
+                big_rep = start_rep(rng, kind, vals, names if kind != "A" else None, ids=ids, shuffle=False, **meta)
+                big_panel = {"vals": vals, "names": names}
+                if ids is not None:
+                    big_panel["ids"] = ids
+                sels = []
+                some = sorted(rng.sample(range(n), max(1, n // 2)))
+                allbut = [p for p in range(n) if p != rng.randrange(n)] or [0]
+                hows = {"A": ["fancy", "mask", "rev", "slice"], "T": ["fancy", "mask", "rev"], "N": ["loc", "mask", "iloc", "rev"],
+                        "M": ["loc", "mask", "iloc"], "L": ["mask"]}[kind]
+                for how in hows:
+                    for inst in (some, allbut):
+                        if how == "rev":
+                            inst = list(range(n - 1, -1, -1))
+                        if how == "slice":
+                            inst = list(range(inst[0], inst[-1] + 1))
+                        if how in ("iloc", "fancy") and rng.random() < 0.5:
+                            inst = list(reversed(inst))
+                        if kind == "M" and how == "rev":
+                            continue
+                        sels.append({"inst": inst, "how": how})
+                if kind != "T":
+                    if c > 1:
+                        cs = rng.sample(range(c), c - 1) if kind in ("N", "M", "A") else sorted(rng.sample(range(c), c - 1))
+                        sels.append({"cols": cs, "how": "fancy"})
+                        sels.append({"inst": some, "how": hows[0], "cols": sorted(cs)})
+                    if t > 2:
+                        sels.append({"tpre": rng.randrange(2, t)})
+                        sels.append({"inst": some, "how": hows[0], "tpre": t - 1})
+                if kind in ("A", "T") and not meta["pandas2d"]:
+                    for lay in (["F", "T", "strided"] if kind == "A" else ["F", "strided"]):
+                        sels.append({"layout": lay})
+                        sels.append({"inst": some, "how": "fancy", "layout": lay})
+                paths = op_paths(kind, 2)
+                for via in sels:
+                    use = paths if tier == "thorough" else rng.sample(paths, min(len(paths), 3))
+                    for ops in use:
+                        cases.append(sel_case(rng, kind, big_panel, big_rep, via, ops, meta))
+    # the stale-levels case that stays silent: 2 of 4 instances, 6 time points (rows divisible by the old instance count)
+    vals = mk_vals(rng, 4, 2, 6)
+    big_rep = start_rep(rng, "M", vals, ["b", "a"], levels=("inst", "t"))
+    for how in ("loc", "mask", "iloc"):
+        for ops in (["m3"], ["mn", "n3"], ["m3", "3n"]):
+            cases.append(sel_case(rng, "M", {"vals": vals, "names": ["b", "a"]}, big_rep, {"inst": [1, 3], "how": how}, ops, {"levels": ("inst", "t")}))
+
+
 def gen_cases(tier, rng):
     cases = []
     gen_small(tier, rng, cases)
@@ -1171,6 +1494,7 @@ def gen_cases(tier, rng):
     gen_frames(tier, rng, cases)
     gen_malformed(tier, rng, cases)
     gen_snames(tier, rng, cases)
+    gen_select(tier, rng, cases)
     return cases
 
 
